@@ -894,6 +894,31 @@ impl PartialEq for ErasedSegment {
     }
 }
 
+/// Verification hook (only with `--cfg sqruff_verif`): observe every call of `position_segments`
+/// (arguments and result).
+#[cfg(sqruff_verif)]
+pub mod verif_hook {
+    use std::cell::RefCell;
+
+    use super::{ErasedSegment, PositionMarker};
+
+    type Hook = Box<dyn FnMut(&[ErasedSegment], &PositionMarker, &[ErasedSegment])>;
+
+    thread_local! {
+        pub static POS_HOOK: RefCell<Option<Hook>> = const { RefCell::new(None) };
+    }
+
+    pub fn emit(segments: &[ErasedSegment], parent_pos: &PositionMarker, result: &[ErasedSegment]) {
+        POS_HOOK.with(|h| {
+            if let Ok(mut h) = h.try_borrow_mut() {
+                if let Some(f) = h.as_mut() {
+                    f(segments, parent_pos, result)
+                }
+            }
+        })
+    }
+}
+
 pub fn position_segments(
     segments: &[ErasedSegment],
     parent_pos: &PositionMarker,
@@ -960,6 +985,9 @@ pub fn position_segments(
         new_seg.get_mut().set_position_marker(new_position.into());
         segment_buffer.push(new_seg);
     }
+
+    #[cfg(sqruff_verif)]
+    verif_hook::emit(segments, parent_pos, &segment_buffer);
 
     segment_buffer
 }
